@@ -216,20 +216,30 @@ pub fn catalogue<'a>(s: &'a Suite, rng_seed: u64) -> Vec<Case<'a>> {
             s.batch.as_ref().unwrap().encode_polynomial_new(&vals)
         }
     };
-    // parameters
-    {
-        let p = s.ps.params();
+    // parameters (with and without the special-prime-for-encryption flag)
+    for (nm, p) in [("parms", s.ps.params()), ("parms_special", s.ps.params().set_use_special_prime_for_encryption(true))] {
         let p2 = p.clone();
         let p3 = p.clone();
         cases.push(Case {
-            name: "parms".into(),
+            name: nm.into(),
             shape: json!({"k": "parms", "scheme": scheme_name(s.ps.scheme), "nmod": s.ps.primes.len()}),
             ser: Box::new(move |_, mut w| Serializable::serialize(&p, &mut w)),
             size: Box::new(move |_| Serializable::serialized_size(&p2)),
             de: Box::new(move |_, b| {
                 let mut r = CountReader { data: b, pos: 0 };
                 let d = <EncryptionParameters as Serializable>::deserialize(&mut r)?;
-                Ok((r.pos, d.parms_id() == p3.parms_id() && d.poly_modulus_degree() == p3.poly_modulus_degree() && d.coeff_modulus().len() == p3.coeff_modulus().len()))
+                let same = d.parms_id() == p3.parms_id()
+                    && d.scheme() == p3.scheme()
+                    && d.poly_modulus_degree() == p3.poly_modulus_degree()
+                    && d.coeff_modulus().iter().map(|m| m.value()).collect::<Vec<_>>() == p3.coeff_modulus().iter().map(|m| m.value()).collect::<Vec<_>>()
+                    && d.plain_modulus().value() == p3.plain_modulus().value()
+                    && d.use_special_prime_for_encryption() == p3.use_special_prime_for_encryption();
+                // a context built from the restored parameters has the same levels
+                let ids = |q: &EncryptionParameters| {
+                    let c = HeContext::new(q.clone(), true, SecurityLevel::None);
+                    (*c.key_parms_id(), *c.first_parms_id(), *c.last_parms_id())
+                };
+                Ok((r.pos, same && ids(&d) == ids(&p3)))
             }),
             interchange: Box::new(|_, _| true),
         });
